@@ -178,16 +178,22 @@ def wfdKind (S : Schema) (d : StructDef) (f : Field) : Bool :=
   | .array _ mode _ _ key => key.isNone || (match mode with | .count _ => true | _ => false)
   | _ => true
 
-/-- the condition of a member, seen from the member -/
+/-- the condition of a member, seen from the member:
+    * a member tested by truthiness is a byte array, and its discriminant is a value-carrying member or
+      its own (unsigned) size member -- so that the discriminant written again is the one read;
+    * a member guarded by a `sizeref` member is the target of that member, guarded by `!= 0`. -/
 def wfdCond (d : StructDef) (f : Field) : Bool :=
   match f.cond with
   | none => true
   | some c =>
-    (!c.viaSelf || f.kind.isBarray) &&
     (match lookupField d.fields c.field with
-      | some cf => (match cf.kind with
-        | .sizeRef _ _ t _ => t == f.name && c.op == .ne && c.value == 0 && !c.viaSelf
-        | _ => true)
+      | some cf =>
+        (!c.viaSelf ||
+          (f.kind.isBarray &&
+            (cf.kind.carries || (match cf.kind with | .count _ s t _ => !s && t == f.name | _ => false)))) &&
+        (match cf.kind with
+          | .sizeRef _ _ t _ => t == f.name && c.op == .ne && c.value == 0 && !c.viaSelf
+          | _ => true)
       | none => false)
 
 def wfdStruct (S : Schema) (d : StructDef) : Bool :=
